@@ -5,6 +5,7 @@
 EXTENDS Npc
 
 CONSTANTS InitTensors,   \* sequence of tensors initially in the pool (slots 1..Len)
+          InitShared,    \* pairs {s1, s2} of initial slots that are shallow copies of each other
           NSlots, MaxOps, MaxRank, MaxSize, MaxAbs
 
 Slots == 1..NSlots
@@ -17,7 +18,7 @@ Nil == [op |-> "nil"]
 
 Init == /\ pool = [s \in Slots |-> IF s <= Len(InitTensors) THEN InitTensors[s] ELSE Null]
         /\ used = 1..Len(InitTensors)
-        /\ shared = {}
+        /\ shared = InitShared
         /\ cls = "none"
         /\ pending = Nil
         /\ last = [op |-> "init", out |-> 0, inplace |-> FALSE]
